@@ -166,22 +166,23 @@ Qed.
 Definition eff_check (s : source) : bool :=
   match s_kind s with Remote => s_check s | _ => true end.
 
-(* a source that MetadataStore.load can register *)
+(* a source that MetadataStore.load can register: with a certificate and a
+   signed root it is remote and its verification call answered True *)
 Definition admissible (s : source) : Prop :=
   (s_kind s = Remote -> s_http_ok s = true) /\
   (s_kind s <> Inline -> s_cert s = true -> d_signed (s_doc s) = true ->
-     s_kind s = Remote /\ exists b, s_verdict s = Ok b).
+     s_kind s = Remote /\ s_verdict s = Ok true).
 
 Lemma parse_and_check_ok now check s m :
   parse_and_check now check s = Ok m ->
   parse now check (d_body (s_doc s)) = Ok m /\
-  (s_cert s = true -> d_signed (s_doc s) = true -> s_kind s = Remote /\ exists b, s_verdict s = Ok b).
+  (s_cert s = true -> d_signed (s_doc s) = true -> s_kind s = Remote /\ s_verdict s = Ok true).
 Proof.
   unfold parse_and_check. destruct (parse now check (d_body (s_doc s))) as [m0|x]; [|discriminate].
   destruct (s_cert s).
   - destruct (d_signed (s_doc s)); cbn [negb].
-    + destruct (s_kind s); try discriminate. destruct (s_verdict s) as [b|x]; [|discriminate].
-      intros H; injection H as <-. split; [reflexivity|]. intros _ _. split; [reflexivity|now exists b].
+    + destruct (s_kind s); try discriminate. destruct (s_verdict s) as [[|]|x]; try discriminate.
+      intros H; injection H as <-. split; [reflexivity|]. intros _ _. split; reflexivity.
     + intros H; injection H as <-. split; [reflexivity|]. intros _ Hd; discriminate.
   - intros H; injection H as <-. split; [reflexivity|]. intros Hc; discriminate.
 Qed.
@@ -197,6 +198,30 @@ Proof.
   - destruct (s_http_ok s); [|discriminate]. intros H. apply parse_and_check_ok in H as [Hp Hs].
     split; [exact Hp|]. split; [reflexivity|]. intros _ Hc Hd. destruct (Hs Hc Hd) as [_ Hb].
     split; [reflexivity|exact Hb].
+Qed.
+
+(* the converse: an admissible source whose document parses IS registered *)
+Lemma load_source_complete now s m :
+  admissible s -> parse now (eff_check s) (d_body (s_doc s)) = Ok m -> load_source now s = Ok m.
+Proof.
+  unfold load_source, eff_check, admissible, parse_and_check. intros [Hh Hv] Hp.
+  destruct (s_kind s) eqn:Ek.
+  - exact Hp.
+  - rewrite Hp. destruct (s_cert s) eqn:Ec; [|reflexivity].
+    destruct (d_signed (s_doc s)) eqn:Ed; [|reflexivity].
+    destruct (Hv ltac:(discriminate) eq_refl eq_refl) as [Hx _]. discriminate.
+  - rewrite (Hh eq_refl), Hp. destruct (s_cert s) eqn:Ec; [|reflexivity].
+    destruct (d_signed (s_doc s)) eqn:Ed; [|reflexivity]. cbn [negb].
+    destruct (Hv ltac:(discriminate) eq_refl eq_refl) as [_ ->]. reflexivity.
+Qed.
+
+(* a failed verification - reported by raising or by returning False - keeps the source out *)
+Lemma failed_verification_fatal now s :
+  s_kind s <> Inline -> s_cert s = true -> d_signed (s_doc s) = true -> s_verdict s <> Ok true ->
+  exists x, load_source now s = Err x.
+Proof.
+  intros Hk Hc Hd Hv. destruct (load_source now s) as [m|x] eqn:El; [|now exists x].
+  apply load_source_ok in El as [_ [_ Ha]]. destruct (Ha Hk Hc Hd) as [_ Hb]. contradiction.
 Qed.
 
 Lemma load_source_get now s m :
